@@ -31,7 +31,7 @@ package dispatch
 //@     (!r.Matchers.Matches(L) ? seq_nil() : (kids(r, L) == seq_nil() ? single(r) : kids(r, L)))
 
 //@ func (*Route).Match
-//@   props C07
+//@   props C07 C13
 //@   requires r != nil
 //@   assumes forall x *Route :: forall i int :: 0 <= i && i < len(x.Routes) ==> x.Routes[i] != nil
 //@   ensures [spec] seq(result) == matchSeq(r, lset)
@@ -373,3 +373,28 @@ package dispatch
 //@   ensures [returns-after-stop] called("chan.recv")
 //@   loop 1 invariant count("go.stmt") == i && count("WaitGroup).Add") == i && i >= 0 && count("WaitGroup).Go") == 2 && !called("chan.recv") && (i <= d.concurrency || i == 0) && d.concurrency == old(d.concurrency) && cell(d) == d
 //@   noeffect AlertIterator).Next AlertIterator).Close
+
+// ---- C06 / C04: the route part of a group key is a function of the matchers along the route's path only: the parent's
+// key, a slash, the route's own matchers - nothing that depends on the route's position among its siblings, on other
+// routes, on the instance or on the time. (The notification log is keyed by it across reloads and restarts.)
+//@ func (*Route).Key
+//@   props C06 C04
+//@   requires r != nil
+//@   at call Builder).WriteString assert [only-the-parent_s-key-then-the-own-matchers] count("Builder).WriteString") == 0 && r.parent != nil
+//@             ? (called("Route).Key") && arg1 == ret("Route).Key"))
+//@             : (count("Builder).WriteString") == (r.parent != nil ? 1 : 0) && called("Matchers).String") && arg1 == ret("Matchers).String"))
+//@   at call Matchers).String assert [the-route_s-own-matchers] arg0 == r.Matchers
+//@   at call Route).Key assert [the-parent_s-key] arg0 == r.parent
+//@   ensures [two-parts-below-the-root-one-at-the-root] count("Builder).WriteString") == (r.parent != nil ? 2 : 1) && count("Builder).WriteRune") == (r.parent != nil ? 1 : 0)
+//@   ensures [nothing-else-is-consulted] count("Route).Key") == (r.parent != nil ? 1 : 0) && count("Matchers).String") == 1
+//@   ensures [what-was-built-is-returned] result == ret("Builder).String")
+//@   noeffect Route).Key Matchers).String
+//@   assigns nothing
+
+// the group key = the route key recorded when the group was created, a colon, the group's label set
+//@ func (*aggrGroup).GroupKey
+//@   props C06 C04
+//@   requires ag != nil
+//@   at call fmt.Sprintf assert [route-key-colon-labels] arg0 == "%s:%s" && len(arg1) == 2
+//@   ensures [the-formatted-text] result == ret("fmt.Sprintf")
+//@   assigns nothing
